@@ -1049,6 +1049,113 @@ fn forged_expansion_body(c: &CompCase, rec: &mut Rec) -> CaseResult {
 }
 
 // ---------------------------------------------------------------------------------------------
+// end to end, proof removed: the server's honest answer holds a wildcard-expanded RRset -- asked
+// for directly, or reached through an in-zone CNAME at the query name -- together with the NSEC
+// that shows no closer match exists. With every NSEC (and its RRSIG) cut out of the authority
+// section nothing entails "no closer match than the expanded wildcard exists" any more, so the
+// expanded RRset must not come back Secure.
+
+fn stripped_proof_body(c: &CompCase, rec: &mut Rec) -> CaseResult {
+    use futures_util::StreamExt;
+    use hickory_net::dnssec::DnssecDnsHandle;
+    use hickory_net::xfer::DnsHandle;
+    use hickory_proto::dnssec::rdata::DNSSECRData;
+    use hickory_proto::dnssec::Proof;
+    use hickory_proto::op::DnsRequestOptions;
+    use hickory_proto::rr::{RData, RecordType};
+
+    let zone = parse_zone(&c.zone)?;
+    let mut q = abs_q(&zone, c.q.as_str());
+    let mut qtype = c.qtype;
+    if !matches!(zone.truth(&q, qtype), Truth::WildAnswer { .. }) {
+        // the generated query is not answered from a wildcard: take a name below one of the zone's
+        // wildcard owners instead (label `c` is not used by the zone generator)
+        let pick = zone.nodes.iter().filter(|(o, t)| o.first().is_some_and(|l| l.as_slice() == b"*") && (t.contains(&ty::A) || t.contains(&ty::TXT))).find_map(|(o, t)| {
+            let mut n = vec![b"c".to_vec()];
+            n.extend(o[1..].iter().cloned());
+            let ty_ = if t.contains(&ty::A) { ty::A } else { ty::TXT };
+            matches!(zone.truth(&n, ty_), Truth::WildAnswer { .. }).then_some((n, ty_))
+        });
+        if let Some((n, t)) = pick {
+            q = n;
+            qtype = t;
+        }
+    }
+    let c = &CompCase { zone: c.zone.clone(), q: c.q.clone(), qtype };
+    let qn = to_name(&q);
+    let truth = zone.truth(&q, c.qtype);
+    if !matches!(truth, Truth::WildAnswer { .. }) || c.qtype == ty::CNAME {
+        rec.discard(format!("truth-{}", truth.kind()));
+        return Ok(());
+    }
+    let via_alias = crate::core::fixed_hash(&[b"c08-stripped", c.zone.as_str().as_bytes(), c.q.as_str().as_bytes()]) % 2 == 0;
+    let alias = Name::from_ascii("zz-alias").unwrap().append_domain(&to_name(&zone.apex)).map_err(|e| Fail::new("harness-name", e.to_string()))?;
+    let extra = vec![(alias.clone(), RData::CNAME(hickory_proto::rr::rdata::CNAME(qn.clone())))];
+    let hz = zb::build_hk_zone_with(&zone, &NxKind::Nsec, &extra).map_err(|e| Fail::new("harness-zone-build", e))?;
+    let asked = if via_alias { alias.clone() } else { qn.clone() };
+    rec.class(if via_alias { "expanded-rrset-reached-through-a-cname-at-the-query-name" } else { "expanded-rrset-asked-for-directly" });
+
+    let honest = zb::ask(&hz, &asked, rtype(c.qtype)).map_err(|e| Fail::new("harness-ask", e))?;
+    let expanded = honest.answers.iter().any(|r| match &r.data {
+        RData::DNSSEC(DNSSECRData::RRSIG(s)) => s.input().type_covered == rtype(c.qtype) && s.input().num_labels < r.name.num_labels(),
+        _ => false,
+    });
+    let is_nsec = |r: &Record| r.record_type() == RecordType::NSEC || matches!(&r.data, RData::DNSSEC(DNSSECRData::RRSIG(s)) if s.input().type_covered == RecordType::NSEC);
+    if !expanded || !honest.authorities.iter().any(|r| r.record_type() == RecordType::NSEC) {
+        // covered by the completeness sub-properties and the known server-side findings
+        rec.discard("server-answer-holds-no-expanded-rrset-with-nsec");
+        return Ok(());
+    }
+    let mut forged = honest.clone();
+    let kept: Vec<Record> = forged.authorities.iter().filter(|r| !is_nsec(r)).cloned().collect();
+    forged.authorities = kept;
+    rec.nontrivial();
+
+    let run = |msg: hickory_proto::op::Message| -> Result<Option<Result<hickory_proto::op::DnsResponse, hickory_net::NetError>>, Fail> {
+        let mut sim = crate::sim::Sim::new(zb::T0 + 60);
+        let handle = ForgingHandle {
+            inner: zb::CatalogHandle { catalog: hz.catalog.clone(), log: Default::default() },
+            qname: asked.clone(),
+            qtype: rtype(c.qtype),
+            forged: std::sync::Arc::new(msg),
+        };
+        let dh = DnssecDnsHandle::with_trust_anchor(handle, zb::trust_anchor(&hz)).validation_cache_size(256);
+        let query = Query::new(asked.clone(), rtype(c.qtype));
+        sim.run(
+            async move {
+                let mut s = dh.lookup(query, DnsRequestOptions::default());
+                s.next().await
+            },
+            10_000,
+        )
+        .map_err(|e| Fail::new("harness-sim", format!("simulation ended with {e:?}")))
+    };
+    let secure_expansion = |r: &Option<Result<hickory_proto::op::DnsResponse, hickory_net::NetError>>| match r {
+        Some(Ok(resp)) => resp.answers.iter().any(|a| a.record_type() == rtype(c.qtype) && a.name.to_lowercase() == qn.to_lowercase() && a.proof == Proof::Secure),
+        _ => false,
+    };
+    let with_proof = run(honest.clone())?;
+    rec.class(if secure_expansion(&with_proof) { "with-the-nsec:secure" } else { "with-the-nsec:not-secure" });
+    let without = run(forged)?;
+    rec.class(if secure_expansion(&without) { "without-the-nsec:secure" } else { "without-the-nsec:not-secure" });
+    if rec.wants_note() {
+        rec.note(format!("zone [{}] + {alias} CNAME {qn}; asked {asked} {}", zone.render(), ty::mnemonic(c.qtype)));
+    }
+    if secure_expansion(&without) {
+        return triage(Fail::new(
+            "wildcard-expansion-secure-without-any-nsec",
+            format!(
+                "zone [{}] + {alias} CNAME {qn}: query {asked} {}: the wildcard-expanded RRset at {qn} came back Secure from a response whose NSEC records had been removed; outcome {:?}",
+                zone.render(),
+                ty::mnemonic(c.qtype),
+                without.as_ref().map(|x| x.as_ref().map(|m| (m.metadata.response_code, m.answers.iter().map(|a| (a.record_type(), a.proof)).collect::<Vec<_>>())).map_err(|e| e.to_string()))
+            ),
+        ));
+    }
+    Ok(())
+}
+
+// ---------------------------------------------------------------------------------------------
 // the chain hickory generates = the chain RFC 4035 §2.3 prescribes (the property's state anchor)
 
 #[derive(Clone, Debug, Serialize, Deserialize)]
@@ -1179,10 +1286,11 @@ pub fn check() -> Option<Check> {
     let comp_sampled = prop("complete_sampled", 20_000, 600_000, |_t: Tier| sampled_comp(8), comp_body);
     let comp_e2e = prop("complete_e2e", 5_000, 150_000, |_t: Tier| sampled_comp(6), e2e_body);
     let forged_e2e = prop("sound_forged_expansion_e2e", 20_000, 400_000, |_t: Tier| sampled_comp(6), forged_expansion_body);
+    let stripped_e2e = prop("sound_stripped_proof_e2e", 12_000, 200_000, |_t: Tier| sampled_comp(6), stripped_proof_body);
     Some(Check {
         id: "C08",
         level: "exploration",
-        rule: "soundness case = (zone over labels {a,b,*} to depth 3 with hosts, CNAMEs, wildcards at several depths, empty non-terminals, delegations +/-DS, glue/occluded names; query name in or just outside the zone incl. labels c ! ~ and `*` in query names; query types) evaluated for every claim (NXDOMAIN, NODATA, each wildcard-expanded answer for which a genuine RRSIG exists, NXDOMAIN+answer) x SOA name present/absent x every non-empty subset of the zone's genuine NSEC chain (all 2^k-1 subsets for k<=6, otherwise singletons, full, full-minus-one and 48 pseudo-random subsets); counted non-trivial when the query name is in the zone (then some evaluated claim is false, or some subset is Secure, or proper subsets of a sufficient proof are tried); counters give verify_nsec calls, Secure verdicts, true/false claims. sound_enum is the exhaustive depth-2 sweep (quick <=3 owners, thorough <=4 owners, i.e. k<=5), sound_slice a 1/48 (quick, 4 owners) resp. 1/8 (thorough, 5 owners) slice of the next size. chain_* compare the NSEC chain hickory generates with the RFC 4035 2.3 chain of the model. Completeness case = (zone, query) whose truth is negative or wildcard-expanded, answered by hickory's own signed zone through Catalog::handle_request and judged by verify_nsec (complete_enum exhaustive over depth-2 zones with <=2/<=4 owners x 32 names x 4 types; complete_sampled deeper zones) and by the real DnssecDnsHandle (complete_e2e); every such case is non-trivial. sound_forged_expansion_e2e: the genuine NSEC + RRSIG of a wildcard owner *.X renamed to a query name below X (its signature then verifies like a wildcard expansion) is presented to the real DnssecDnsHandle as NODATA proof; non-trivial when the claim is false in the zone (the type exists at the name, or the name does not exist).",
+        rule: "soundness case = (zone over labels {a,b,*} to depth 3 with hosts, CNAMEs, wildcards at several depths, empty non-terminals, delegations +/-DS, glue/occluded names; query name in or just outside the zone incl. labels c ! ~ and `*` in query names; query types) evaluated for every claim (NXDOMAIN, NODATA, each wildcard-expanded answer for which a genuine RRSIG exists, NXDOMAIN+answer) x SOA name present/absent x every non-empty subset of the zone's genuine NSEC chain (all 2^k-1 subsets for k<=6, otherwise singletons, full, full-minus-one and 48 pseudo-random subsets); counted non-trivial when the query name is in the zone (then some evaluated claim is false, or some subset is Secure, or proper subsets of a sufficient proof are tried); counters give verify_nsec calls, Secure verdicts, true/false claims. sound_enum is the exhaustive depth-2 sweep (quick <=3 owners, thorough <=4 owners, i.e. k<=5), sound_slice a 1/48 (quick, 4 owners) resp. 1/8 (thorough, 5 owners) slice of the next size. chain_* compare the NSEC chain hickory generates with the RFC 4035 2.3 chain of the model. Completeness case = (zone, query) whose truth is negative or wildcard-expanded, answered by hickory's own signed zone through Catalog::handle_request and judged by verify_nsec (complete_enum exhaustive over depth-2 zones with <=2/<=4 owners x 32 names x 4 types; complete_sampled deeper zones) and by the real DnssecDnsHandle (complete_e2e); every such case is non-trivial. sound_forged_expansion_e2e: the genuine NSEC + RRSIG of a wildcard owner *.X renamed to a query name below X (its signature then verifies like a wildcard expansion) is presented to the real DnssecDnsHandle as NODATA proof; non-trivial when the claim is false in the zone (the type exists at the name, or the name does not exist). sound_stripped_proof_e2e: the server's honest wildcard-expanded answer (asked for directly, or reached through an in-zone CNAME added at zz-alias.<apex>) is handed to the real DnssecDnsHandle with every NSEC and its RRSIG removed from the authority section: the expanded RRset must not come back Secure.",
         assumptions: vec![
             "truth predicate = refm::zonemodel (RFC 1034 4.3.2, RFC 4592 existence/closest encloser/source of synthesis incl. ENT wildcards, RFC 4035 3.1.4 DS at the parent side); small scope: labels {a,b,*,c,!,~}, query depth <= 4, <= 10 owners",
             "answers passed to verify_nsec carry proof=Secure (state after a successful RRSIG check); wildcard answers only with RRSIGs that can verify (a genuine wildcard owner above the query name)",
@@ -1199,6 +1307,7 @@ pub fn check() -> Option<Check> {
             comp_sampled,
             comp_e2e,
             forged_e2e,
+            stripped_e2e,
         ],
     })
 }
